@@ -141,6 +141,23 @@ Theorem C10_judge_known_narrow : forall (ops : list op) (b : built) (c : N), jud
 Proof. exact judge_known_narrow. Qed.
 Print Assumptions C10_judge_known_narrow.
 
+(* ... and complete: it accepts every transaction the model builds outside the known classes, so a `fails:-` verdict of the
+   correspondence run is never an artefact of the judge on behaviour the model (hence the theorems) covers *)
+Theorem C10_judge_complete : forall (ops : list op) (st : txb) (flags : list bool) (b : built),
+  run ops = (st, flags) -> tx_build st = Ok b ->
+  known_collateral_plutus ops = false -> known_prop_nonscript ops = false -> judge ops b = Holds.
+Proof. exact judge_complete. Qed.
+Print Assumptions C10_judge_complete.
+
+(* the known classes, stated on the call list alone: K1 = the LAST call for some collateral input is
+   add_plutus_script_input; K2 = the last accepted call for some proposal without policy hash is add_with_plutus_witness *)
+Theorem C10_known_classes_on_calls : forall ops : list op,
+  (known_collateral_plutus ops = true <-> exists o h rid, spend_final (ops_col ops) o = Some (Some (h, WPlutus rid))) /\
+  (known_prop_nonscript ops = true <->
+     exists p rid, prop_final (ops_prop ops) p = Some (Some (WPlutus rid)) /\ prop_has_script_hash p = false).
+Proof. intros ops. split; [apply known_collateral_plutus_iff | apply known_prop_nonscript_iff]. Qed.
+Print Assumptions C10_known_classes_on_calls.
+
 (* ---- inside the known classes the unrestricted statements are false (witnesses replayed on the real code:
         corpus/C10 w4, w5) ---- *)
 Theorem C10_unique_refuted_collateral :
